@@ -423,7 +423,11 @@ def cases_v(items, have_gen=True):
         else:
             out.append('Definition obs_%d : list term := %s.' % (it['idx'], coq_nf(it['obs'])))
             out.append('Definition ref_%d : list term := %s.' % (it['idx'], coq_nf(it['ref'])))
-            rows.append('(%d%%nat, chk (Some ref_%d) obs_%d, chk (Some ref_%d) obs_%d, 1%%nat)' % (it['idx'], it['idx'], it['idx'], it['idx'], it['idx']))
+            kd3 = '1%nat'
+            if it.get('kdref') is not None:
+                out.append('Definition kdref_%d : list term := %s.' % (it['idx'], coq_nf(it['kdref'])))
+                kd3 = 'chk (Some kdref_%d) obs_%d' % (it['idx'], it['idx'])
+            rows.append('(%d%%nat, chk (Some ref_%d) obs_%d, chk (Some ref_%d) obs_%d, %s)' % (it['idx'], it['idx'], it['idx'], it['idx'], it['idx'], kd3))
     out.append('Definition items : list (nat * nat * nat * nat) := [\n  %s].' % ';\n  '.join(rows))
     out.append('Definition pick (f : nat * nat * nat * nat -> nat) (v : nat) := map (fun r => fst (fst (fst r))) (filter (fun r => Nat.eqb (f r) v) items).')
     out.append('Eval vm_compute in pick (fun r => snd (fst (fst r))) 1%nat.   (* code table: mismatch *)')
@@ -677,7 +681,8 @@ def run(tier='quick', replay=None):
                             st['state'] = 'uncanon'
                             st['why'] = 'input: %s' % r.get('input_uncanon')
                             break
-                        items.append({'idx': idx, 'kind': 'eq', 'obs': nf, 'ref': r['input_nf'][pi_]})
+                        items.append({'idx': idx, 'kind': 'eq', 'obs': nf, 'ref': r['input_nf'][pi_],
+                                      'kdref': (r.get('input_nf_absdropped') or [None] * 9)[pi_]})
                     else:
                         sig = c['sigs'][oi] if c['kind'] == 'hist' else c['sig']
                         inv = op['op'] == 'inv'
@@ -834,6 +839,9 @@ def run(tier='quick', replay=None):
                 thms = [n for n in (thms or []) if oblkey.get(n) == (kind, 'pid:trap')] or None
                 if thms is None:
                     thms = [n for (k_, ft_), ns in broken.items() if (k_, ft_) == (kind, 'pid:trap') for n in ns] or None
+            elif kind == 'rt' and st.get('kd') and all(st['kd']) and 'oid:twoexp' in st['feats']:
+                # exactly the behaviour of the open SymPy fall-back finding: exp(-a|t|) comes back as exp(-a t), rest intact
+                key = 'rt:oid:twoexp:exp'
             elif bf:
                 # a known defect of a table entry / scale factor is the translated expression itself: the finding is keyed by
                 # the hash of that expression, and only covers results that the model WITH the translated (wrong) expression
